@@ -275,7 +275,7 @@ def run_cmd(cmd, cwd, env, timeout, mem_gb=None, log=None):
 def kani_env():
     env = dict(os.environ)
     env["CARGO_NET_OFFLINE"] = "true"
-    env["RUSTFLAGS"] = '-Zcrate-attr=recursion_limit="8192" -Zcrate-attr=feature(pattern) -Zcrate-attr=feature(str_lines_remainder)'
+    env["RUSTFLAGS"] = os.environ.get("VERIF_RUSTFLAGS", '-Zcrate-attr=recursion_limit="8192" -Zcrate-attr=feature(pattern) -Zcrate-attr=feature(str_lines_remainder)')
     env.pop("RUSTUP_TOOLCHAIN", None)
     env["CARGO_TERM_COLOR"] = "never"
     return env
